@@ -863,7 +863,14 @@ class Engine:
         if m is not None:
             call["model"] = m.__name__
             self.used_models[m.__name__] = self.used_models.get(m.__name__, 0) + 1
-            return m(self, call, args)
+            try:
+                return m(self, call, args)
+            except Unsupported:
+                raise
+            except Exception as e:   # a model that cannot handle this call shape: conservative default, recorded
+                self.note("model %s failed on %s at %s (%s: %s): conservative default used"
+                          % (m.__name__, call.get("callee_name"), call["at"], type(e).__name__, e))
+                return self.models.default(self, call, k, args, target)
         # 2. inline workspace body
         if target is not None and target.kind in ("Fn", "AssocFn", "Closure") and not target.derived \
                 and target.name not in self.opaque:
